@@ -112,6 +112,11 @@ def run(rep, tier, seed, replay=None):
         #      ones), + the grid NS witness on the implementation
         GA.gridalg_k(rep, 'C05', binp, seed + 5151, 1200 if escalate else 400, family=1, payload_is_broken=False)
         GA.ns_witness(rep, 'C05', binp)
+        # ---- K6 (wave 6): WHOLE TREES mixing block / flex / grid containers and leaves, every tree with a display:none node: the engine
+        #      C05_taffy_engine_hidden_invisible is about (Model/TaffyEngine.v taffy_algo with the real dispatch / leaf, exact-key memo, root
+        #      glue) vs TaffyTree::compute_layout_with_measure, every node's unrounded layout after every pass (notes/TAFFYTREE.md)
+        from . import _taffytree
+        _taffytree.tree_k(rep, 'C05', binp, seed + 6161, 1500 if escalate else 300, family=1)
     for t in THEOREMS:
         rep.cov['samples'].append({'theorem': t})
     # ---- search: metamorphic oracle on the implementation
